@@ -2,7 +2,10 @@
   Spec.MatchClasses — labels used only to attribute an observed deviation (code = model ≠ rules,
   outside D) to the known-finding classes.  `Spec.reasons` says why a pair is outside D but stops
   at the first unsupported construct (`ext:$not` for a nested `$not`, `multiop`, …); `deepLabels`
-  keeps descending so that the class responsible inside such a construct is named too.
+  keeps descending so that the class responsible inside such a construct is named too: through
+  `$not`, multi-operator documents, the items of `$all`, and through `$elemMatch` on every
+  element of the arrays the path reaches (each element being, as in the rules, the only reached
+  value of an operator query, or the document of a field query).
   Not used by any theorem.
 -/
 import Spec.MatchDomain
@@ -10,55 +13,50 @@ import Spec.MatchDomain
 namespace MongoModel.Spec
 open MongoModel
 
+/-- the elements of the arrays among the reached values -/
+def arrayItems (cs : List (Option Val)) : List Val :=
+  cs.flatMap (fun c => match c with | some (.arr xs) => xs | _ => [])
+
+/-- the matcher does not follow the path (a negative array index) -/
+def pathLabels (key : String) (d : Val) : List String :=
+  match cands (splitDots key) d with
+  | .ok _ => []
+  | .error _ => ["badkey"]
+
 mutual
-  /-- labels of a condition, descending through `$not`, multi-operator documents, `$elemMatch`
-      and `$all` items; `cs` = values reached by the path (`none` when unknown: inside
-      `$elemMatch`) -/
-  def deepCond : Val → Option (List (Option Val)) → List String
+  /-- labels of a condition on the reached values `cs` -/
+  def deepCond : Val → List (Option Val) → List String
     | .doc fs, cs =>
       if isOps fs then deepOps fs cs ++ (if fs.length > 1 then ["multiop"] else [])
       else if hasDollarKey fs then ["malformed"]
-      else if fs.isEmpty then ["emptydocoperand"]
       else operandReasons (.doc fs)
     | v, _ => operandReasons v
   termination_by structural x _ => x
 
-  def deepOps : Fields → Option (List (Option Val)) → List String
+  def deepOps : Fields → List (Option Val) → List String
     | [], _ => []
     | (op, .doc gs) :: rest, cs =>
       (if op = "$not" then
-         deepCond (.doc gs) cs ++ (if cs == some [] then ["deadend"] else [])
+         deepCond (.doc gs) cs ++ (if cs.isEmpty then ["notnocand"] else [])
        else if op = "$elemMatch" then
-         "ext:$elemMatch" :: (if elemIsOps gs then deepOps gs none else deepFields gs)
-       else opReasons op (.doc gs) (cs.getD [none, none])) ++ deepOps rest cs
+         "ext:$elemMatch" :: (arrayItems cs).flatMap (fun e =>
+           if elemIsOps gs then deepOps gs [some e] else deepFilter gs e)
+       else opReasons op (.doc gs) cs) ++ deepOps rest cs
     | (op, .arr vs) :: rest, cs =>
-      (if op = "$all" then "ext:$all" :: deepList vs
-       else opReasons op (.arr vs) (cs.getD [none, none])) ++ deepOps rest cs
-    | (op, sv) :: rest, cs => opReasons op sv (cs.getD [none, none]) ++ deepOps rest cs
+      (if op = "$all" then allReasons (.arr vs) cs ++ deepList vs cs
+       else opReasons op (.arr vs) cs) ++ deepOps rest cs
+    | (op, sv) :: rest, cs => opReasons op sv cs ++ deepOps rest cs
   termination_by structural x _ => x
 
-  /-- field conditions inside an `$elemMatch` query / connectives inside it -/
-  def deepFields : Fields → List String
-    | [] => []
-    | (k, c) :: rest =>
-      (if k = "$and" || k = "$or" || k = "$nor" then
-         (match c with
-          | .arr qs => deepList qs
-          | _ => ["malformed"])
-       else if k.startsWith "$" then (if k = "$comment" then [] else ["malformed"])
-       else deepCond c none) ++ deepFields rest
-  termination_by structural x => x
+  /-- the `$elemMatch` items of an `$all` -/
+  def deepList : List Val → List (Option Val) → List String
+    | [], _ => []
+    | .doc fs :: rest, cs => (if isOps fs then deepOps fs cs else []) ++ deepList rest cs
+    | _ :: rest, cs => deepList rest cs
+  termination_by structural x _ => x
 
-  def deepList : List Val → List String
-    | [] => []
-    | .doc fs :: rest =>
-      (if isOps fs then deepOps fs none else deepFields fs) ++ deepList rest
-    | v :: rest => operandReasons v ++ deepList rest
-  termination_by structural x => x
-end
-
-mutual
-  /-- deep labels of every condition of a filter -/
+  /-- deep labels of every condition of a filter (also of an `$elemMatch` field query, `d` being
+      the array element) -/
   def deepFilter : Fields → Val → List String
     | [], _ => []
     | (key, c) :: rest, d =>
@@ -67,12 +65,14 @@ mutual
           | .arr qs => deepFilterList qs d
           | _ => [])
        else if key.startsWith "$" || !keyOk key then []
-       else deepCond c (some (reach (splitDots key) d))) ++ deepFilter rest d
+       else pathLabels key d ++ deepCond c (reach (splitDots key) d)) ++ deepFilter rest d
   termination_by structural x _ => x
+
   def deepFilterVal : Val → Val → List String
     | .doc fs, d => deepFilter fs d
     | _, _ => []
   termination_by structural x _ => x
+
   def deepFilterList : List Val → Val → List String
     | [], _ => []
     | q :: rest, d => deepFilterVal q d ++ deepFilterList rest d
